@@ -86,7 +86,52 @@ fn idmap(v: &Value, style: IdStyle) -> Vec<(String, i64)> {
     out
 }
 
+use sha1::{Digest, Sha1};
+use std::cell::RefCell;
+use std::collections::HashMap;
+
+thread_local! {
+    /// SHA-1 (hex) -> the text (as codes) it is the digest of, for every text an annotation of this behaviour has
+    /// ever selected. The digests are computed here, not asked of the library.
+    static SHA_TABLE: RefCell<HashMap<String, Vec<i64>>> = RefCell::new(HashMap::new());
+}
+
+pub fn reset_sha_table() {
+    SHA_TABLE.with(|t| t.borrow_mut().clear());
+}
+
+fn remember_texts(store: &AnnotationStore) {
+    SHA_TABLE.with(|t| {
+        let mut t = t.borrow_mut();
+        for a in store.annotations() {
+            let text: String = a.textselections().map(|ts| ts.text().to_string()).collect();
+            if !text.is_empty() {
+                let mut hasher = Sha1::new();
+                hasher.update(text.as_bytes());
+                t.insert(base16ct::lower::encode_string(&hasher.finalize()), codes_of(&text));
+            }
+        }
+    });
+}
+
+fn codes_val(tag: &str, codes: &[i64]) -> Val {
+    Val { t: tag.into(), s: String::new(), n: 0, l: codes.iter().map(|c| Val::int(*c)).collect() }
+}
+
+/// values of the text-validation dataset are texts and digests of texts
+fn tv_val(keyid: &str, v: &DataValue, style: IdStyle) -> Val {
+    match (keyid, v) {
+        ("text", DataValue::String(s)) => codes_val("text", &codes_of(s)),
+        ("checksum", DataValue::String(s)) => match SHA_TABLE.with(|t| t.borrow().get(s).cloned()) {
+            Some(codes) => codes_val("sha1", &codes),
+            None => Val { t: "sha1".into(), s: format!("?{}", s), n: 0, l: vec![] },
+        },
+        _ => val_of(v, style),
+    }
+}
+
 pub fn project(store: &AnnotationStore, style: IdStyle) -> (PState, Vec<PPos>) {
+    remember_texts(store);
     let dump = store.verif_dump();
     let mut st = PState::default();
     let mut pos: Vec<PPos> = Vec::new();
@@ -138,12 +183,13 @@ pub fn project(store: &AnnotationStore, style: IdStyle) -> (PState, Vec<PPos>) {
                 data.push(PData { id: String::new(), alive: false, key: 0, val: Val::null() });
             } else {
                 let item = set.as_ref().annotationdata(AnnotationDataHandle::new(j)).expect("data slot is live in dump");
-                data.push(PData {
-                    id: style.abs(d[0].as_str().unwrap_or("")),
-                    alive: true,
-                    key: d[1].as_i64().unwrap() + 1,
-                    val: val_of(item.value(), style),
-                });
+                let val = if set.id() == Some(TV_SET) {
+                    let keyid = set.key(item.key()).and_then(|k| k.id().map(|s| s.to_string())).unwrap_or_default();
+                    tv_val(&keyid, item.value(), style)
+                } else {
+                    val_of(item.value(), style)
+                };
+                data.push(PData { id: style.abs(d[0].as_str().unwrap_or("")), alive: true, key: d[1].as_i64().unwrap() + 1, val });
             }
         }
         st.sets.push(PSet {
